@@ -803,6 +803,34 @@ func sortedKeys[M ~map[string]V, V any](m M) []string {
 
 var _ = fmt.Sprintf
 
+// substTerm replaces sub-terms by key.
+func substTerm(t *Term, m map[string]*Term) *Term {
+	if t == nil || len(m) == 0 {
+		return t
+	}
+	if r, ok := m[t.Key()]; ok {
+		return r
+	}
+	if len(t.Args) == 0 {
+		return t
+	}
+	changed := false
+	args := make([]*Term, len(t.Args))
+	for i, a := range t.Args {
+		args[i] = substTerm(a, m)
+		if args[i] != a {
+			changed = true
+		}
+	}
+	if !changed {
+		return t
+	}
+	n := *t
+	n.Args = args
+	n.key = ""
+	return &n
+}
+
 // linearize writes an integer term as sum(coeff * atom) + c; ok is false when
 // the term contains a product of two non-constants.
 func linearize(t *Term) (map[string]int64, map[string]*Term, int64, bool) {
